@@ -132,6 +132,7 @@ type Step struct {
 // 70+k error: a bare *multierror.Error holding k errors (k = 0..3), 80+k error: such a multierror wrapped with %w,
 // 8 the same event mutated (FormattedAs) and returned, 90..97 well-known / odd error values (see stdErr),
 // 100+j the node makes the registry call Reent[j] of the case from inside Process and passes the event on,
+// 120..124 a different, only partially filled event (no Type / zero CreatedAt / nil format table / payload only / no payload),
 // 110 / 111 / 112 the node writes the exported field Formatted[k] / Payload / Type of the Event directly and passes it on
 type Case struct {
 	ID    int     `json:"id"`
@@ -145,7 +146,8 @@ type Case struct {
 	// Reent: registry calls the nodes themselves make from inside Process (behaviour code 100+j makes call Reent[j], then
 	// passes the event on)
 	Reent []Op `json:"reent,omitempty"`
-	// Payload of every Send of the case: 0 a fresh pointer, 1 nil, 2 a string, 3 a struct value
+	// Payload of every Send of the case: 0 a fresh pointer, 1 nil, 2 a string, 3 a struct value, 4 an *Event of the type sent,
+	// 5 an *Event of another type, 6 a nil *Event
 	Payload int `json:"payload,omitempty"`
 	// Clock: 0 the Broker's clock is left alone, 1 StopTimeAt(a fixed instant in the past), 2 StopTimeAt(the zero time),
 	// 3 StopTimeAt(2100-01-01: later than the deadline of the live deadline-carrying caller contexts), 4 StopTimeAt(now)
@@ -265,12 +267,20 @@ var sharedErrs sync.Map // obj -> *herr
 
 var errSentinel error = regErr(&herr{id: 999998}, 999998)
 
+var sharedErrMu sync.Mutex
+
+// one stored error value per node object; created and registered under one lock (a second caller must never see the value
+// before its identity is registered)
 func (n *hnode) sharedErr() error {
-	v, loaded := sharedErrs.LoadOrStore(n.obj, &herr{id: n.obj*1000 + 999})
-	if !loaded {
-		regErr(v.(*herr), n.obj*1000+999)
+	sharedErrMu.Lock()
+	defer sharedErrMu.Unlock()
+	if v, ok := sharedErrs.Load(n.obj); ok {
+		return v.(*herr)
 	}
-	return v.(*herr)
+	h := &herr{id: n.obj*1000 + 999}
+	regErr(h, n.obj*1000+999)
+	sharedErrs.Store(n.obj, h)
+	return h
 }
 
 type hnode struct {
@@ -396,6 +406,23 @@ func (n *hnode) Process(ctx context.Context, e *el.Event) (*el.Event, error) {
 		out = e
 	case 90, 91, 92, 93, 94, 95, 96, 97, 98:
 		err = stdErr(n.obj, visit, code)
+	case 120, 121, 122, 123, 124:
+		// a DIFFERENT event that is only partially filled: 120 no Type, 121 zero CreatedAt, 122 nil format table, 123 nothing but
+		// the payload, 124 everything but the payload — the next node must get exactly this, nothing filled in
+		ne := &el.Event{Type: e.Type, CreatedAt: e.CreatedAt, Formatted: map[string][]byte{"k": {byte(n.obj)}}, Payload: e.Payload}
+		switch code {
+		case 120:
+			ne.Type = ""
+		case 121:
+			ne.CreatedAt = time.Time{}
+		case 122:
+			ne.Formatted = nil
+		case 123:
+			ne = &el.Event{Payload: e.Payload}
+		case 124:
+			ne.Payload = nil
+		}
+		out = ne
 	case 110:
 		// writes the exported format table directly (no FormattedAs): must stay private to this Send's Event
 		if e.Formatted == nil {
@@ -432,6 +459,12 @@ func (n *hnode) Process(ctx context.Context, e *el.Event) (*el.Event, error) {
 	r.mu.Lock()
 	r.inProcess--
 	r.last = time.Now()
+	if out != nil {
+		if _, known := r.fresh[out]; known || out != e {
+			// an event a harness node made: remember what exactly was returned (re-recorded whenever a node returns it again)
+			r.fresh[out] = fingerprint(out, r.payload)
+		}
+	}
 	nr := tev{K: "ret", Obj: n.obj, Ein: eid, Out: "drop"}
 	if err != nil {
 		nr.Out, nr.Ev = "err", errID(err)
@@ -528,6 +561,7 @@ type rec struct {
 	gate                                                map[int]bool
 	clock                                               *time.Time
 	anyCall                                             bool
+	fresh                                               map[*el.Event]string // events made by harness nodes -> content when last returned
 	lazy                                                bool // the registry snapshot is taken at the first hook callback
 	lazyRes                                             *Result
 	duringThird                                         []Op // registry calls a third party made while this Send was in flight
@@ -535,6 +569,21 @@ type rec struct {
 	dirtied                                             bool // a node of this Send overwrote Payload / Type of the shared Event
 	during                                              []Op // registry calls made by nodes during this Send
 	w                                                   *world
+}
+
+// fingerprint of an event's content: Type, CreatedAt, whether the format table exists and its keys, whether Payload is the sent one
+func fingerprint(e *el.Event, sent interface{}) string {
+	keys := make([]string, 0, len(e.Formatted))
+	for k := range e.Formatted {
+		keys = append(keys, k)
+	}
+	sort.Strings(keys)
+	same := false
+	func() {
+		defer func() { _ = recover() }()
+		same = e.Payload == sent
+	}()
+	return fmt.Sprintf("%q|%d|%v|%v|%v|%v", e.Type, e.CreatedAt.UnixNano(), e.CreatedAt.IsZero(), e.Formatted == nil, keys, same)
 }
 
 func (r *rec) internEv(e *el.Event) int {
@@ -774,6 +823,14 @@ func (r *rec) hook(name string, args ...interface{}) {
 		}
 		if k == 0 && e == nil {
 			r.event0ok = false
+		}
+		if e != nil {
+			if fp0, ok := r.fresh[e]; ok && fp0 != fingerprint(e, r.payload) {
+				r.event0ok = false // the node did not receive exactly what its predecessor returned (content filled in / changed)
+			}
+			if pe, ok := r.payload.(*el.Event); ok && k == 0 && pe == e {
+				r.event0ok = false // the payload Event itself was handed to the pipelines instead of a new Event carrying it
+			}
 		}
 		r.anyCall = true
 		r.emit(tev{K: "call", P: p, Pos: k, Obj: r.refObj[ref], Ein: r.internEv(e)})
@@ -1064,7 +1121,7 @@ func (w *world) startSend(etyN int, gate []int, sched Sched) *flight {
 	b := w.b
 	f := &flight{w: w, done: make(chan struct{})}
 	r := &rec{refs: map[interface{}][2]int{}, refObj: map[interface{}]int{}, occ: map[pkey]int{}, evIDs: map[*el.Event]int{},
-		sched: sched, event0ok: true, sentType: ety(etyN), gate: map[int]bool{}, w: w}
+		sched: sched, event0ok: true, sentType: ety(etyN), gate: map[int]bool{}, w: w, fresh: map[*el.Event]string{}}
 	f.r = r
 	for _, g := range gate {
 		r.gate[g] = true
@@ -1122,6 +1179,16 @@ func (w *world) startSend(etyN int, gate []int, sched Sched) *flight {
 		payload = fmt.Sprintf("payload-%d", payloadSeq)
 	case 3:
 		payload = struct{ A, B int }{payloadSeq, 7}
+	case 4, 5:
+		// an *eventlogger.Event as the payload (an event received elsewhere and forwarded): of the type being sent / of another
+		pt := ety(etyN)
+		if w.payloadKind == 5 {
+			pt = el.EventType("some-other-type")
+		}
+		payload = &el.Event{Type: pt, CreatedAt: time.Date(2000, 1, 1, 0, 0, 0, 0, time.UTC), Formatted: map[string][]byte{"old": {1}}, Payload: "inner"}
+	case 6:
+		var none *el.Event
+		payload = none
 	}
 	r.payload = payload
 	r.clock = w.clock
